@@ -32,7 +32,8 @@ def wf(dd, h):
   e = z3.Const('e!wf', I)
   return z3.And(
       z3.ForAll([k], z3.Implies(z3.IsMember(k, dd.dom), z3.And(
-          z3.Select(dd.ref, k) >= 0, z3.Select(dd.ref, k) < h['alloc']))),
+          z3.Select(dd.ref, k) >= 0, z3.Select(dd.ref, k) < h['alloc'],
+          z3.Select(h['heap'], z3.Select(dd.ref, k))))),   # queues are heaps
       z3.ForAll([k, k2], z3.Implies(
           z3.And(z3.IsMember(k, dd.dom), z3.IsMember(k2, dd.dom),
                  z3.Select(dd.ref, k) == z3.Select(dd.ref, k2)), k == k2)),
@@ -143,7 +144,8 @@ def _lists_unchanged(s):
   return z3.ForAll([r], z3.Implies(
       z3.And(r >= 0, r < h0['alloc']),
       z3.And(z3.Select(h1['bag'], r) == z3.Select(h0['bag'], r),
-             z3.Select(h1['len'], r) == z3.Select(h0['len'], r))))
+             z3.Select(h1['len'], r) == z3.Select(h0['len'], r),
+             z3.Implies(z3.Select(h0['heap'], r), z3.Select(h1['heap'], r)))))
 
 
 def _get_result_inv(s):
@@ -176,7 +178,8 @@ spec.contract(
     ensures=[
         ('a new descending list with the same multiset for every key',
          _get_result_post),
-        ('reading changes no stored queue', _lists_unchanged),
+        ('reading changes no stored queue (multiset, length, heap order)',
+         _lists_unchanged),
     ],
     loops=[LoopSpec(('key, q', 'self._result.items()'),
                     invariants=[('copied so far', _get_result_inv),
